@@ -1209,6 +1209,7 @@ class Ev:
         out = ArrV(batch, out_shape)
         # constant axes in front of the grid axes ((2, ntv) after a transpose): kept when the other operand has no constant axes of its own (a scalar, a vector
         # over the grid) or is laid out the same way; mixing the two layouts is a different broadcast and is refused
+        out.c_order = all(getattr(x, "c_order", False) for x in (a, b) if isinstance(x, ArrV))          # results take the layout of their operands
         lasts = [x.batch_last for x in (a, b) if isinstance(x, ArrV) and x.shape and x.batch]
         if any(lasts):
             if not all(lasts):
@@ -2198,6 +2199,13 @@ class Ev:
                     for key in keys:
                         base.cells[key] = as_sym(v)
                 return
+            if getattr(base, "maybe_copy_of", None) is not None:
+                e_ = RaisedV("InputAssumption", self.here(t, mod))
+                e_.expected = "stores through a reshaped array only when the array is known to be C-contiguous (a fresh allocation, .copy(), numpy.copy(x, order='C'), ascontiguousarray)"
+                e_.detail = ("a store through x.reshape(...) is meant to change x, but reshape returns a COPY when x is not contiguous in memory - and x here takes its layout from arrays handed in "
+                             "from outside (numpy.copy keeps the layout of its argument, arithmetic results follow their operands): for Fortran-ordered or transposed input the store is lost "
+                             "and the result is computed from the unmodified array")
+                raise e_
             sets, scalar = base.index_sets(items, self, t, mod)
             gi = getattr(base, "_grid_index", None)
             if gi is not None:
@@ -3233,6 +3241,38 @@ def lib_copy(ev, a, k, n, mod):
     return x
 
 
+def _order_kw(ev, k, n, mod, default):
+    o = k.get("order", default)
+    o = o if isinstance(o, str) else default
+    if o not in ("C", "K", "A", "F"):
+        raise ev.err(f"copy with order {o!r}", n, mod)
+    return o
+
+
+def lib_np_copy(ev, a, k, n, mod):
+    """numpy.copy(x, order='K'): the copy keeps the memory layout of x unless order='C' is asked for"""
+    out = lib_copy(ev, a, {}, n, mod)
+    o = _order_kw(ev, k, n, mod, "K")
+    if isinstance(out, ArrV):
+        out.c_order = True if o == "C" else (bool(getattr(a[0], "c_order", False)) if o in ("K", "A") else False)
+    return out
+
+
+lib_np_copy.kw = {"order", "subok"}
+
+
+def lib_method_copy(ev, a, k, n, mod):
+    """x.copy(order='C'): a fresh C-contiguous array by default"""
+    out = lib_copy(ev, a, {}, n, mod)
+    o = _order_kw(ev, k, n, mod, "C")
+    if isinstance(out, ArrV):
+        out.c_order = True if o == "C" else (bool(getattr(a[0], "c_order", False)) if o in ("K", "A") else False)
+    return out
+
+
+lib_method_copy.kw = {"order"}
+
+
 def lib_where(ev, a, k, n, mod):
     if len(a) == 1 and isinstance(a[0], CondV):
         return WhereV(a[0])
@@ -3387,8 +3427,8 @@ def lib_abs(ev, a, k, n, mod):
 LIB = {
     "numpy.exp": lib_exp, "numpy.expm1": lib_expm1, "numpy.log": lib_log, "numpy.sqrt": lib_sqrt,
     "math.exp": lib_exp, "math.sqrt": lib_sqrt, "math.log": lib_log, "math.expm1": lib_expm1,
-    "numpy.prod": lib_prod, "numpy.array": lib_array, "numpy.asarray": lib_array, "numpy.copy": lib_copy,
-    "ndarray.copy": lib_copy, "ndarray.to_numpy": lib_copy,
+    "numpy.prod": lib_prod, "numpy.array": lib_array, "numpy.asarray": lib_array, "numpy.copy": lib_np_copy,
+    "ndarray.copy": lib_method_copy, "ndarray.to_numpy": lib_copy,
     "numpy.where": lib_where, "numpy.gradient": lib_gradient, "numpy.abs": lib_abs, "abs": lib_abs,
     "len": lib_len, "range": lib_range, "tuple": lib_tuple, "list": lib_list, "sorted": lib_sorted,
     "zip": lib_zip, "itertools.product": lib_product, "itertools.permutations": lib_permutations,
@@ -3471,6 +3511,7 @@ def lib_zeros(ev, a, k, n, mod):
         out.is_cond = True
     if batch and isinstance(a[0], Tup):
         out.grid_dims = list(a[0].items[:batch])         # the lengths of the grid axes as the code wrote them (sizes, block loops)
+    out.c_order = True
     return out
 
 
@@ -3490,7 +3531,9 @@ def lib_empty(ev, a, k, n, mod):
     batch, const = _shape_items(ev, a[0], n, mod)
     if not const:
         return UNINIT
-    return ArrV(batch, const, UNINIT)
+    out_ = ArrV(batch, const, UNINIT)
+    out_.c_order = True
+    return out_
 
 
 def lib_empty_like(ev, a, k, n, mod):
@@ -5302,8 +5345,12 @@ def lib_reshape(ev, a, k, n, mod):
     out = ArrV(x.batch, tuple(dims), x.fill)
     src = list(itertools.product(*[range(d) for d in x.shape]))
     dst = list(itertools.product(*[range(d) for d in dims]))
-    # numpy returns a view of a contiguous array: in-place products on the result change the original
+    # numpy returns a view of a contiguous array: in-place products on the result change the original.  Of an array whose memory layout is not known to be
+    # C-contiguous (a K-order copy or arithmetic result of arrays handed in from outside) it may return a COPY: reads are the same, stores are lost
     out.cells = _ViewCells(x, dict(zip(dst, src)))
+    out.c_order = True
+    if not getattr(x, "c_order", False) and x.batch + len(x.shape) != x.batch + len(dims):
+        out.maybe_copy_of = x
     if hasattr(x, "is_cond"):
         out.is_cond = x.is_cond
     return out
